@@ -107,7 +107,7 @@ func (l *leader) beginFinishedRounds() {
 // this is called:
 // - from leader.init
 // - from leader.changeConfig
-// - from leader.setCommitIndex, if config is committed
+// - from leader.setCommitIndex, if config is committed or leader became commit ready
 // - from leader.onTransferTimeout
 func (l *leader) checkConfigActions(t *task, config Config) {
 	// do actions on self if any
@@ -240,7 +240,7 @@ func (l *leader) checkConfigAction(t *task, config Config, status *replicationSt
 }
 
 func (l *leader) canChangeConfig() bool {
-	return l.configs.IsCommitted() && !l.transfer.inProgress()
+	return l.configs.IsCommitted() && l.commitIndex >= l.startIndex && !l.transfer.inProgress()
 }
 
 func (l *leader) onWaitForStableConfig(t waitForStableConfig) {
